@@ -158,10 +158,10 @@ pub fn random_cfg(rng: &mut Sm, i: usize) -> SimCfg {
     SimCfg {
         composition: (i % 8) as u8,
         seed: rng.next(),
-        n_steps: rng.range(1, 120),
+        n_steps: if i % 5 == 4 { rng.range(200, 420) } else { rng.range(1, 120) },
         step_size: *rng.pick(&[50u64, 1000, 100_000]),
         ticks: vec![rng.range(1, 10) as u32, rng.range(1, 10) as u32, rng.range(1, 10) as u32],
-        n_agents: rng.range(2, 30) as u16,
+        n_agents: if i % 5 == 4 { rng.range(2, 8) as u16 } else { rng.range(2, 30) as u16 },
         activity: *rng.pick(&[0.3, 0.7, 1.0]),
         p_limit: *rng.pick(&[0.2, 0.6, 1.0]),
         p_market: *rng.pick(&[0.1, 0.4]),
@@ -321,7 +321,7 @@ pub fn c09(ctx: &Ctx) -> i32 {
     let cov = json!({
         "evaluations": runs + children,
         "distinct_nontrivial": d.len(),
-        "rule": "cases = complete simulation runs through sim_runner / market_sim_runner: 8 compositions of the built-in agents through both derive macros (incl. nested sets; 1, 2 and 3 assets), random seeds, step counts 1..120, step sizes, ticks 1..10 and agent parameters; each configuration is run twice in-process, once in a child OS process and once in a child with the progress bar (children get perturbed environment variables, working directory and heap), and once more with seed+1; compared through a 128-bit FNV digest of all orders, trades, every recorded series and the clock; distinct = distinct digests; non-trivial = the run traded",
+        "rule": "cases = complete simulation runs through sim_runner / market_sim_runner: 8 compositions of the built-in agents through both derive macros (incl. nested sets; 1, 2 and 3 assets), random seeds, step counts 1..120 and 200..420, step sizes, ticks 1..10 and agent parameters; each configuration is run twice in-process, once in a child OS process and once in a child with the progress bar (children get perturbed environment variables, working directory and heap), and once more with seed+1; compared through a 128-bit FNV digest of all orders, trades, every recorded series and the clock; distinct = distinct digests; non-trivial = the run traded",
         "samples": samples,
         "in_process_runs": runs,
         "child_process_runs": children,
